@@ -10,7 +10,8 @@
            skind 0 Linear / 1 Log; hint = the integer b whose powers get closed forms;
            r = ratio of the shift law (x2 must equal x*r exactly; r = 0: no shift law);
            m0 = Map with Clamp off, m1 = Map after SetClamp(true), ux = Unmap(m0x),
-           uy = Unmap(y), muy = Map(uy) (Clamp off).  Grids are ascending.
+           uy = Unmap(y), muy = Map(uy) (Clamp off).  Grids are ascending; their values are
+           compared like the probes' (Map with Clamp off, Unmap).
 
    kind 2  QQ:       16 2 skind smin smax sclamp shint  dkind dmin dmax dclamp dhint
                       nx { x sm du qm back }*   ny { y dm su qu fwd }*
@@ -219,6 +220,24 @@ Definition unmap_check (s : scale) (b : Z) (y : Q) (uy muy : xreal) : outcome :=
       end
   end.
 
+(* Unmap of one grid value y (the y-grid carries no Map back): the same value comparison *)
+Definition unmap_value_check (s : scale) (b : Z) (y : Q) (uy : xreal) : outcome :=
+  match s with
+  | SLin l =>
+      let e := lin_unmap l y in
+      need (xwithin (e12 * (Qabs (y * width s) + Qabs (l_min l))) (XFin e) uy) 0 24 (qdiag e)
+  | SLog g =>
+      match uy with
+      | XFin u =>
+          need (sign_ok s u) 0 25 [] >>>
+          (match lunmap_exact b e12 (log_unmap_dec g y) with
+           | Some e => need (within (e9 * Qabs e) e u) T_UEXACT 26 (qdiag e)
+           | None => ok 0
+           end)
+      | _ => failed 0 27 []
+      end
+  end.
+
 (* ---------- folding over indexed lists ---------- *)
 Fixpoint each {A} (f : A -> outcome) (l : list A) (i : Z) : Z * option (Z * Z * list Z) :=
   match l with
@@ -272,7 +291,10 @@ Definition check_scale : parser (list Z) :=
      seq2 (whole (if Qeqb r 0 then ok 0 else shift_check s None ps)) (fun _ =>
      seq2 (whole (mono_check (direction s) (gap_x s) g)) (fun _ =>
      seq2 (each (fun t => let '(y, u, m) := t in unmap_check s b y u m) ys 1000%Z) (fun _ =>
-           whole (mono_check (direction s) (gap_y s) yg))))))).
+     seq2 (whole (mono_check (direction s) (gap_y s) yg)) (fun _ =>
+     (* the grid values themselves, not only their order *)
+     seq2 (each (fun t => map_check s b (fst t) (snd t)) g 2000%Z) (fun _ =>
+           each (fun t => unmap_value_check s b (fst t) (snd t)) yg 3000%Z)))))))).
 
 (* ---------- kind 2: QQ ---------- *)
 Record qprobe := mkQ { q_x : xreal; q_sm : xreal; q_du : xreal; q_qm : xreal; q_back : xreal }.
@@ -289,10 +311,19 @@ Definition tol_qq (dst : scale) (m : xreal) (v : Q) : Q :=
 Definition inside (s : scale) (x : Q) : bool :=
   Qleb (Qminb (sc_min s) (sc_max s)) x && Qleb x (Qmaxb (sc_min s) (sc_max s)).
 
+(* tolerance of a Map value: as in map_check *)
+Definition tol_sm (src : scale) (m : Q) : Q := (match src with SLin _ => e12 | SLog _ => e10 end) * (1 + Qabs m).
+
 (* one probe of the map src -> dst (QQ.Map), or with the roles swapped (QQ.Unmap) *)
 Definition qq_check (src dst : scale) (bs bd : Z) (p : qprobe) : outcome :=
   (* composition, on the implementation's own component outputs: bit-for-bit *)
   need (xeq (q_du p) (q_qm p)) T_QQ 30 (xdiag (q_du p)) >>>
+  (* the source's own Map value, where it is rational *)
+  (match sc_map_exact bs src (q_x p) with
+   | Some (XFin m) => need (xwithin (tol_sm src m) (XFin m) (q_sm p)) 0 34 (qdiag m)
+   | Some XNaN => need (is_nan (q_sm p)) 0 35 []
+   | _ => ok 0
+   end) >>>
   (* the exact composite where it is rational *)
   (match sc_map_exact bs src (q_x p) with
    | Some m =>
